@@ -3,3 +3,6 @@
 #include "canary.h"
 #include "contracts/c03i.h"
 #include "c03_img.c"
+#include "K_rt_first_ray.c"
+float nondet_float(void);
+void h_K_rt_first_ray(void) { K_rt_first_ray(nondet_float(), nondet_float(), nondet_int()); }
